@@ -289,7 +289,14 @@ def gen_hist(rng, mode, nops):
                         elif mode == "drop" and rng.random() < 0.45:
                             act.drop(s, fam)
                             act.give(s, fam, 0.5)              # change or drop
-            ops.append(ev_token(s, rel))
+            if not rel and rng.random() < 0.15:
+                # the same update arrives as the result of a subscriber mutation (HandleMutationResult); a failed
+                # mutation (ok=0) of an already live session is not replicated and changes nothing
+                ops.append("M:1:" + ev_token(s, False)[2:])
+            else:
+                ops.append(ev_token(s, rel))
+            if not rel and rng.random() < 0.05:
+                ops.append("M:0:" + ev_token(s, False)[2:])         # failed mutation: ignored
             if s["srg"] in (1, 2):
                 sent[s["srg"]].append((rel, (s["kind"], sid)))
             if rel:
@@ -413,6 +420,9 @@ def gen_conc(rng, tier, out):
         for cap in (2, 4):
             for ops in interleavings(list(range(1, n + 1)), [], []):
                 emit(cap, ops)
+                if n == 2:   # the same with handler 2 (resp. both) entering through HandleMutationResult
+                    emit(cap, [o.replace("H:2:", "G:2:") for o in ops])
+                    emit(cap, [o.replace("H:", "G:") for o in ops])
     # role transitions of the sender (Manager.driveSync -> SetActive) between and during events: failover, failback,
     # repeated activation; counters and rings live as long as the process
     for cap in (2, 3, 8):
@@ -431,7 +441,7 @@ def gen_conc(rng, tier, out):
             elif pending and x < 0.4:
                 i = pending.pop(0)
                 started.append(i)
-                ops.append("H:%d:%d" % (i, i))
+                ops.append("%s:%d:%d" % (rng.choice("HHG"), i, i))
             elif started and x < 0.8:
                 i = rng.choice(started)
                 started.remove(i)
@@ -515,6 +525,10 @@ def _triggers(case):
     out = set()
     for tok in t[4:]:
         f = tok.split(":")
+        if f[0] == "M":
+            if f[1] == "0":
+                continue
+            f = ["E"] + f[2:]
         if f[0] == "E":
             g = int(f[3])
             if g in (1, 2):
@@ -575,7 +589,7 @@ def _overlap(case):
     started = set()
     for tok in case.split()[3:]:
         f = tok.split(":")
-        if f[0] == "H":
+        if f[0] in ("H", "G"):
             started.add(f[1])
         elif f[0] == "F":
             started.discard(f[1])
@@ -589,9 +603,9 @@ def _overlap(case):
 def shrink(case):
     t = case.split()
     if t[0] == "conc":
-        ids = sorted({x.split(":")[1] for x in t[3:] if x[0] in "HF"})
+        ids = sorted({x.split(":")[1] for x in t[3:] if x[0] in "HGF"})
         for i in ids:
-            yield " ".join(t[:3] + [x for x in t[3:] if not (x[0] in "HF" and x.split(":")[1] == i)])
+            yield " ".join(t[:3] + [x for x in t[3:] if not (x[0] in "HGF" and x.split(":")[1] == i)])
         for k, x in enumerate(t[3:]):
             if x.startswith("E:"):
                 yield " ".join(t[:3 + k] + t[4 + k:])
@@ -631,6 +645,8 @@ def shrink(case):
             f = tok.split(":")
             if int(f[2]) > 1:
                 yield " ".join(head + rest[:i] + [":".join(f[:2] + [str(int(f[2]) - 1)] + f[3:])] + rest[i + 1:])
+        if tok.startswith("M:"):
+            yield " ".join(head + rest[:i] + ["E:" + ":".join(tok.split(":")[2:])] + rest[i + 1:])
         if tok.startswith("E:"):
             f = tok.split(":")
             for j, v in ((9, "-"), (11, "-"), (13, "-"), (17, "-"), (18, "-"), (8, "0"), (16, "0")):
@@ -662,6 +678,13 @@ def distribution(cases, impl):
         nops = 0
         for t in toks:
             k = t[0]
+            if k == "M":
+                d["mutation_results"] = d.get("mutation_results", 0) + 1
+                if t.split(":")[1] == "0":
+                    nops += 1
+                    continue
+                t = "E:" + ":".join(t.split(":")[2:])
+                k = "E"
             if k == "E":
                 f = t.split(":")
                 d["events"] += 1
